@@ -77,6 +77,8 @@ type replyRec struct {
 	req  *http.Request
 	rsnp http.Header
 	rurl string
+	held io.ReadCloser // a body the caller has not read yet (latebody 2)
+	want []byte        // ... and what it has to deliver
 }
 
 func scnSeed(id string, seed int64) int64 {
@@ -377,7 +379,11 @@ func (r *runner) doReqX(st *Step, x int) {
 			// the caller reads the body only after background work that is due has finished
 			synctest.Wait()
 		}
-		if resp.Body != nil {
+		var held io.ReadCloser
+		if st.LateBody == 2 && resp.Body != nil && w.sentBody(tok) != nil {
+			// the caller keeps the response and reads its body at the very end of the scenario
+			held, body = resp.Body, w.sentBody(tok)
+		} else if resp.Body != nil {
 			body, berr = io.ReadAll(resp.Body)
 			resp.Body.Close()
 		}
@@ -441,8 +447,8 @@ func (r *runner) doReqX(st *Step, x int) {
 				if cacheOwn[k] || k == "Content-Length" || k == "Date" {
 					continue
 				}
-				if k == "X-Secret" { // may be stripped under qualified no-cache
-					continue
+				if k == "X-Secret" || k == "Etag" && strings.Contains(strings.Join(want["Cache-Control"], ","), `"ETag, X-Secret"`) {
+					continue // may be stripped under qualified no-cache
 				}
 				if !reflect.DeepEqual(resp.Header[k], v) {
 					missing = append(missing, k)
@@ -474,7 +480,8 @@ func (r *runner) doReqX(st *Step, x int) {
 		}
 		ev["hopin"] = hop
 		r.mu.Lock()
-		r.replies = append(r.replies, &replyRec{x: x, hdr: resp.Header, snap: resp.Header.Clone(), req: req, rsnp: hsnap, rurl: usnap})
+		r.replies = append(r.replies, &replyRec{x: x, hdr: resp.Header, snap: resp.Header.Clone(), req: req, rsnp: hsnap, rurl: usnap,
+			held: held, want: body})
 		r.mu.Unlock()
 	} else {
 		ev["stsame"] = 1
@@ -638,8 +645,14 @@ func RunScenario(t *testing.T, sc *Scenario, log *EventLog, seed int64, workDir 
 		for _, rp := range r.replies {
 			mut := b2i(!reflect.DeepEqual(rp.hdr, rp.snap))
 			rmut := b2i(!reflect.DeepEqual(rp.req.Header, rp.rsnp) || rp.req.URL.String() != rp.rurl)
-			if mut == 1 || rmut == 1 {
-				log.Emit(M{"ev": "mut", "x": rp.x, "resp": mut, "req": rmut, "t": w.now()})
+			bmut := 0
+			if rp.held != nil {
+				got, err := io.ReadAll(rp.held)
+				rp.held.Close()
+				bmut = b2i(err != nil || string(got) != string(rp.want))
+			}
+			if mut == 1 || rmut == 1 || bmut == 1 {
+				log.Emit(M{"ev": "mut", "x": rp.x, "resp": mut, "req": rmut, "body": bmut, "t": w.now()})
 			}
 		}
 		for _, c := range r.cancels {
